@@ -41,14 +41,21 @@ def deliverable(versions):
             except Exception as exc:
                 w.escaped(exc, "wake-up flush raised for an accepted desired value")
             has_reported = w.or_(*[w.eq(vt_int, k) for k in reported])
-            want_line = C.structured_line(w, [nid, cid, 1, 0, vt_int], value)
-            sent = [C.line_eq(w, e, want_line) for e in C.emissions(g)]
+            def is_wanted(e):
+                # the set command for (child, type, value); its ack flag is not prescribed
+                f_ = C.line_fields(w, e)
+                if f_ is None:
+                    return False
+                ints, payload = f_
+                return w.and_(w.eq(ints[0], nid), w.eq(ints[1], cid), w.eq(ints[2], 1),
+                              w.eq(ints[4], vt_int), w.eq(payload, value))
+            sent = [is_wanted(e) for e in C.emissions(g)]
             w.check(w.implies(has_reported, w.or_(*sent)),
                     "accepted desired value for a reported value type was not sent at wake-up")
             # and again at the next wake-up (not yet confirmed by the node)
             del g.conn.written[:]
             C.step_line(w, g, C.wakeup_line(w, version, nid))
-            sent = [C.line_eq(w, e, want_line) for e in C.emissions(g)]
+            sent = [is_wanted(e) for e in C.emissions(g)]
             w.check(w.implies(has_reported, w.or_(*sent)),
                     "pending desired value was not re-sent at the following wake-up")
     return fn
